@@ -113,6 +113,11 @@ pub trait Property: Sync {
     fn assumptions(&self) -> Vec<String>;
     /// cases to evaluate; all randomness from the proptest runner seeded with `seed`
     fn generate(&self, tier: Tier, seed: u64) -> Vec<Value>;
+    /// one case from one generator state: the entry point of the coverage-guided
+    /// stage (bytes -> `G::from_bytes` -> case); None = no such stage
+    fn fuzz_gen(&self, _g: &mut crate::gen::G) -> Option<Value> {
+        None
+    }
     /// true when the enumerated space is finite and was enumerated completely
     fn exhaustive(&self, _tier: Tier) -> bool {
         false
@@ -297,7 +302,7 @@ pub fn load_findings() -> Vec<KnownFinding> {
     }
 }
 
-fn symptom_matches(pattern: &str, symptom: &str) -> bool {
+pub fn symptom_matches(pattern: &str, symptom: &str) -> bool {
     if let Some(p) = pattern.strip_suffix('*') {
         symptom.starts_with(p)
     } else {
@@ -408,7 +413,38 @@ pub fn run_check(prop: &dyn Property, tier: Tier) -> i32 {
         }
     }
     // 2. generated search
-    let cases = prop.generate(tier, seed);
+    let mut cases = prop.generate(tier, seed);
+    // cases handed over by the coverage-guided stage (recorded violations and
+    // the decoded corpus): judged by the full pipeline like generated ones
+    let mut fuzz_info = Value::Null;
+    if let Ok(path) = std::env::var("VRF_EXTRA_CASES") {
+        match std::fs::read_to_string(&path) {
+            Ok(text) => {
+                let before = cases.len();
+                for l in text.lines().filter(|l| !l.trim().is_empty()) {
+                    match serde_json::from_str::<Value>(l) {
+                        Ok(v) => cases.push(v),
+                        Err(e) => {
+                            eprintln!("INFRA: {path}: {e}");
+                            return 2;
+                        }
+                    }
+                }
+                fuzz_info = json!({"cases_from_coverage_guided_stage": cases.len() - before});
+            }
+            Err(e) => {
+                eprintln!("INFRA: {path}: {e}");
+                return 2;
+            }
+        }
+        if let Ok(p) = std::env::var("VRF_FUZZ_SUMMARY") {
+            if let Ok(s) = std::fs::read_to_string(&p) {
+                if let Ok(v) = serde_json::from_str::<Value>(&s) {
+                    fuzz_info["campaign"] = v;
+                }
+            }
+        }
+    }
     let chunk = prop.chunk();
     let mut evaluations = 0usize;
     let mut distinct: BTreeSet<u64> = BTreeSet::new();
@@ -558,6 +594,7 @@ pub fn run_check(prop: &dyn Property, tier: Tier) -> i32 {
             "excluded_by_construction": crate::gen::EXCLUSIONS.lock().unwrap().clone(),
             "symptoms_cooccurring_with_reported": cooccurring,
             "known_findings_replayed": known_lines.len(),
+            "coverage_guided_stage": fuzz_info,
         },
         "assumptions": prop.assumptions(),
         "wall_s": wall,
